@@ -2128,8 +2128,12 @@ class StridedInterval:
                 bits=tok, stride=self.stride, lower_bound=lower, upper_bound=upper, uninitialized=self.uninitialized
             )
 
-        if (self.upper_bound & mask == self.lower_bound & mask) and ((self.upper_bound - self.lower_bound) & mask == 0):
-            # This operation doesn't affect the stride. Stride should be 0 then.
+        if (
+            self.stride & mask == 0
+            and (self.upper_bound & mask == self.lower_bound & mask)
+            and ((self.upper_bound - self.lower_bound) & mask == 0)
+        ):
+            # Every member has the same low bits. Stride should be 0 then.
 
             bound = self.lower_bound & mask
 
@@ -2195,8 +2199,12 @@ class StridedInterval:
                 bits=tok, stride=self.stride, lower_bound=lower, upper_bound=upper, uninitialized=self.uninitialized
             )
 
-        if (self.upper_bound & mask == self.lower_bound & mask) and ((self.upper_bound - self.lower_bound) & mask == 0):
-            # This operation doesn't affect the stride. Stride should be 0 then.
+        if (
+            self.stride & mask == 0
+            and (self.upper_bound & mask == self.lower_bound & mask)
+            and ((self.upper_bound - self.lower_bound) & mask == 0)
+        ):
+            # Every member has the same low bits. Stride should be 0 then.
 
             bound = self.lower_bound & mask
 
